@@ -44,7 +44,8 @@ TECHNIQUE = ('runtime monitoring over exhaustively enumerated open '
              'histories: behavioural comparison with the history-free '
              'observation + registry-unchanged invariant as diagnostic')
 MIN_DISTINCT = {'quick': 3000, 'thorough': 50000}
-FACETS_REQUIRED = {t: ['event:open', 'event:reg', 'event:openx']
+FACETS_REQUIRED = {t: ['event:open', 'event:reg', 'event:openx',
+                       'event:rereg', 'event:openkw']
                    for t in ('quick', 'thorough')}
 HLEN = {'quick': 2, 'thorough': 3}
 JOBS = {'quick': 14}
@@ -79,6 +80,11 @@ TOKENS = [('open', n) for n, _, _ in POOL] + [
     ('openx', 'c.bpch', 'bpch1'),
     ('openx', 'h_noext', 'humidity'),
     ('openx', 'e.nc', 'ioapi'),
+    # the same reader registered again under its name (the set of
+    # registered readers does not change)
+    ('rereg', 'humidity'), ('rereg', 'one3d'),
+    # an open that asks the bpch front end for its block-walking reader
+    ('openkw', 'c.bpch', 'bpch', 'reader=bpch2'),
 ]
 NT = len(TOKENS)
 
@@ -269,6 +275,19 @@ def serve():
                         register_demo()
                         reg0 = list(_getreader._readers)
                         continue
+                    if ev[0] == 'rereg':
+                        _getreader.registerreader(
+                            ev[1], _getreader.getreaderdict()[ev[1]])
+                        continue
+                    if ev[0] == 'openkw':
+                        import PseudoNetCDF as pnc
+                        kw = dict(x.split('=') for x in ev[3].split(','))
+                        try:
+                            g = pnc.pncopen(ev[1], format=ev[2], **kw)
+                            list(g.variables.keys())
+                        except Exception:
+                            pass
+                        continue
                     observe(ev[1], fmt=ev[2] if ev[0] == 'openx' else None)
                     if list(_getreader._readers) != reg0:
                         grew += 1
@@ -298,7 +317,8 @@ def run(spec, res):
     pool = make_pool()
     hist_ = spec['history']
     toks = [TOKENS[h] for h in hist_]
-    hpaths = [[t[0]] + ([pool[t[1]]] if len(t) > 1 else []) + list(t[2:])
+    hpaths = [[t[0]] + ([pool[t[1]] if t[0] != 'rereg' else t[1]]
+                         if len(t) > 1 else []) + list(t[2:])
               for t in toks]
     # "the file and the set of registered readers": the history-free
     # reference has the same registrations and no opens
@@ -351,5 +371,6 @@ def extra_coverage(agg, tier):
     return {'histories_enumerated': len(hist(tier)),
             'history_bound': 'all sequences of length <= %d over %d events '
                              '(%d format-less opens, 1 late registration, '
-                             '%d opens naming another valid reader)'
-                             % (HLEN[tier], NT, NP, NT - NP - 1)}
+                             '2 re-registrations, %d opens naming another '
+                             'valid reader or reader keyword)'
+                             % (HLEN[tier], NT, NP, NT - NP - 3)}
